@@ -11,6 +11,7 @@ import json, os, shutil, subprocess, sys, time
 
 REPO = "/repo"
 HERE = os.path.dirname(os.path.abspath(__file__))
+VERIF = os.path.dirname(HERE)   # the tree this script lives in (a snapshot of /verif works too)
 OUT = "/tmp/verif-sens-out"
 
 # (name, how to produce the change, properties that must fail, properties that must stay green)
@@ -87,19 +88,19 @@ def main():
                 t0 = time.time()
                 # the sampler alone: recorded cases (regress/) are left out, or a reverted repair would be found trivially
                 nop = "" if opts.get("pinned") else "VERIF_NO_PINNED=1 "
-                r = sh(f"cd /verif && {nop}VERIF_OUT={OUT} ./check {pid} --tier quick")
+                r = sh(f"cd {VERIF} && {nop}VERIF_OUT={OUT} ./check {pid} --tier quick")
                 viol = [l for l in r.stdout.splitlines() if l.startswith("VIOLATION")]
                 classes = [l.strip() for l in r.stdout.splitlines() if l.startswith("  violation class=")][:3]
                 replay_ok = None
                 if viol:
                     path = viol[0].split("replay=")[1]
-                    rr = sh(f"cd /verif && VERIF_OUT={OUT} ./check {pid} --replay {path}")
+                    rr = sh(f"cd {VERIF} && VERIF_OUT={OUT} ./check {pid} --replay {path}")
                     replay_ok = rr.returncode == 1
                     if replay_ok and expect == 1 and os.environ.get("HARVEST"):
                         # keep the minimised schedules as recorded cases (one per reported violation, at most 3)
-                        os.makedirs(f"/verif/regress/{pid}", exist_ok=True)
+                        os.makedirs(f"{VERIF}/regress/{pid}", exist_ok=True)
                         for k, v in enumerate(viol[:3]):
-                            shutil.copy(v.split("replay=")[1], f"/verif/regress/{pid}/{name}-{k}.json")
+                            shutil.copy(v.split("replay=")[1], f"{VERIF}/regress/{pid}/{name}-{k}.json")
                 row["checks"][pid] = {"expected_exit": expect, "exit": r.returncode, "violations": len(viol), "first": classes, "replay_reproduces": replay_ok, "wall_s": round(time.time() - t0, 1), "recorded_cases": bool(opts.get("pinned"))}
                 verdict = "OK" if r.returncode == expect and (expect == 0 or replay_ok) else "MISMATCH"
                 print(f"{name}: {pid} exit={r.returncode} expected={expect} {verdict} {classes[:1]}")
@@ -109,7 +110,7 @@ def main():
         revert_all()
         shutil.rmtree(OUT, ignore_errors=True)
     # rebuild against the clean tree so that later runs do not use stale binaries
-    sh("cd /verif && ./setup.sh")
+    sh(f"cd {VERIF} && ./setup.sh")
     old = []
     res_file = os.path.join(HERE, "results.json")
     if os.path.exists(res_file):
